@@ -53,7 +53,7 @@ func (v *Vue) evalAttributes(ctx VueContext, n *html.Node) (map[string]any, erro
 			if !helpers.IsTruthy(boundValue) {
 				// A falsy value is not rendered as an attribute, but 0 and false are still values for the
 				// caller: a prop handed to an include keeps its type.
-				if boundValue != nil && boundValue != "" {
+				if boundValue != nil {
 					results[boundName] = boundValue
 				}
 				continue
@@ -170,11 +170,11 @@ func (v *Vue) evalBoundAttribute(ctx VueContext, attrName, expr string) (any, er
 		return val, nil
 	}
 
-	// Regular variable binding, or a literal
+	// Regular variable binding, or a literal; nil (not the empty string) when nothing is bound
 	if valResolved, ok := v.resolveValue(ctx, expr); ok {
 		return valResolved, nil
 	}
-	return "", nil
+	return nil, nil
 }
 
 // evalObjectBinding evaluates object literals like {display: "none"} or {active: true, error: false}
